@@ -148,7 +148,7 @@ def l2_sweep_events(run, rng, quick):
 
 if __name__ == "__main__":
     common.main_wrapper(lambda: generic_check.run_check(
-        "C12", "other", ["RenoVerif/Props/C12.lean", "RenoVerif/Props/C09.lean"], [l2_ps2_counts, l2_sweep_events],
+        "C12", "other", ["RenoVerif/Props/C12.lean", "RenoVerif/Props/C09.lean", "RenoVerif/Props/C09Conserve.lean"], [l2_ps2_counts, l2_sweep_events],
         ["error orders, conservation laws, agreement with the chain implementation are numerical (dense oracle)",
          "local Krylov exponentials are parameters (C18 contract)"],
         "random spin trees (2-4 nodes + optional dummy) x tdvp_ps2 step: two-site step count vs edges",
